@@ -36,7 +36,8 @@ func TestMain(m *testing.M) {
 			"Non-trivial (prim) = a pair straddles the surface (both points outside the band, opposite sides) or a point lies in a cap / edge / corner / rim region; " +
 			"(ops) = some point is inside some operands and outside others (subtract: inside the base); (translate) = non-zero offset and some point changes side between the original and the moved shape. " +
 			"Region classes are computed by the oracle from the geometry, not taken from the generator. Distinct by case JSON. " +
-			"Sub-checks concurrent-ops / concurrent-prim: every concurrent-* case (2-5 bundled cases run at the same time after each passed alone) is non-trivial.",
+			"Sub-checks concurrent-ops / concurrent-prim: every concurrent-* case (2-5 bundled cases run at the same time after each passed alone) is non-trivial. " +
+			"Every closure is also evaluated at its case's points from four goroutines at once (eight rounds) and compared bit for bit with the sequential values (class same-closure-from-4-goroutines).",
 		Assumptions: []string{
 			"scale of a check = largest absolute value among the shape parameters and the coordinates of the sample point(s); every tolerance is 1e-9*scale (Lipschitz: relative 1e-9 plus 1e-12*scale); coordinates stay below ~1e6 and sizes within [1e-4,1e3], no claim about overflow/underflow ranges",
 			"outside means f > 0, inside means f < 0; points whose reference distance is within 1e-9*scale of 0 are not judged for sign",
